@@ -47,11 +47,17 @@ size_t vg_eq;                       /* position of the first '=' in vg_p1 (>= vg
 unsigned long vg_help_calls;        /* calls of the client's help handler               */
 unsigned long vg_abst_calls;        /* calls of the client's abstract-option handler    */
 const char *vg_abst_arg;            /* its last argument                                */
+long vg_num;                        /* numeric reading of the value handed to strtol (abstract model) */
+unsigned long vg_dup_calls, vg_dup_want;   /* strdup call counter; the call number to record */
+const char *vg_dup_src; char *vg_dup_res;  /* source and result of the recorded strdup call   */
+const char *vg_old_ptr;             /* old value of a ghost-indexed pointer slot          */
+char *vg_arena; size_t vg_arena_size, vg_arena_off;   /* bump allocator for strdup under VOPT_STRDUP_ARENA */
 
 static void vopt_env_init(void)
 {
     true_vals[0] = vopt_w_1; true_vals[1] = vopt_w_on; true_vals[2] = vopt_w_true; true_vals[3] = vopt_w_yes;
     false_vals[0] = vopt_w_0; false_vals[1] = vopt_w_off; false_vals[2] = vopt_w_false; false_vals[3] = vopt_w_no;
+    vg_p1 = vg_p2 = vg_lastp = (const char *) 0;   /* nothing registered until the harness says so */
 }
 
 /* client help handler that RETURNS (the most general client: the default one exits,
@@ -62,6 +68,18 @@ void vopt_abstract(spif_charptr_t v) { vg_abst_calls++; vg_abst_arg = (const cha
 
 /* exit() ends the process */
 void exit(int c) { __CPROVER_assume(0); }
+
+/* ---- loop-contract text for spifopt_parse (annot/options.c.options.ann inserts only these macro
+ * names; a unit that verifies a loop of spifopt_parse defines the macro before including this
+ * header, every other unit gets the empty default) */
+#ifndef VOPT_MAINLOOP_CLAUSES
+# define VOPT_MAINLOOP_CLAUSES
+#endif
+#ifndef VOPT_COMPACT_CLAUSES
+# define VOPT_COMPACT_CLAUSES
+# define VOPT_COMPACT_GHOST_TOP
+# define VOPT_COMPACT_GHOST_AFTER
+#endif
 
 #ifndef VOPT_CONCRETE
 /* =========================== abstract model (P units) ========================== */
@@ -77,22 +95,24 @@ static size_t vopt_abs_len(const char *s)
     if (s == vopt_w_false) return 5;
     return nondet_size_t();
 }
-/* an unregistered pointer: in units that define VOPT_TABLE_STRINGS_ASSUMED it is a table
- * long name (ASSUMES every long name in the option table is a valid C string, the header
- * documents the field as required); everywhere else NULL is an error. */
+/* an unregistered pointer: in units that define VOPT_UNREGISTERED_STRINGS_ASSUMED it is a
+ * table long name or an argv word other than the ghost-indexed one (ASSUMES every long name in
+ * the option table / every other argv word is a valid C string; the ghost-indexed one is real
+ * and checked, and the ghost index is arbitrary); everywhere else NULL is an error. */
 static void vopt_check_registered(const char *s)
 {
-#ifdef VOPT_TABLE_STRINGS_ASSUMED
+    /* (dereferences go through the ghost pointers: s may come out of havocked table memory) */
+#ifdef VOPT_UNREGISTERED_STRINGS_ASSUMED
     if (s == NULL || (s != vg_p1 && s != vg_p2)) __CPROVER_assume(s != NULL);
 #endif
     __CPROVER_assert(s != NULL, "string function: argument not NULL");
-    if (s == vg_p1) {
-        __CPROVER_assert(__CPROVER_r_ok(s, vg_n1 + 1), "string function: registered string 1 is readable up to its ghost length");
-        __CPROVER_assert(s[vg_n1] == 0, "string function: registered string 1 has its terminator at its ghost length");
+    if (s != NULL && s == vg_p1) {
+        __CPROVER_assert(__CPROVER_r_ok(vg_p1, vg_n1 + 1), "string function: registered string 1 is readable up to its ghost length");
+        __CPROVER_assert(vg_p1[vg_n1] == 0, "string function: registered string 1 has its terminator at its ghost length");
     }
-    if (s == vg_p2) {
-        __CPROVER_assert(__CPROVER_r_ok(s, vg_n2 + 1), "string function: registered string 2 is readable up to its ghost length");
-        __CPROVER_assert(s[vg_n2] == 0, "string function: registered string 2 has its terminator at its ghost length");
+    if (s != NULL && s == vg_p2) {
+        __CPROVER_assert(__CPROVER_r_ok(vg_p2, vg_n2 + 1), "string function: registered string 2 is readable up to its ghost length");
+        __CPROVER_assert(vg_p2[vg_n2] == 0, "string function: registered string 2 has its terminator at its ghost length");
     }
 }
 size_t strlen(const char *s)
@@ -147,10 +167,30 @@ char *strdup(const char *s)
     vopt_check_registered(s);
     size_t n = vopt_abs_len(s);
     __CPROVER_assume(n <= VCAP);
+#ifdef VOPT_STRDUP_ARENA
+    /* cbmc 6.11 DFCC forbids malloc inside a loop that carries a loop contract (the loop write set
+     * is created with allow_allocate = false).  Units that verify such a loop use a bump allocator
+     * over one harness-provided arena instead: blocks are disjoint ranges of the arena, never NULL;
+     * ASSUMES the arena is large enough (= allocation does not fail). */
+    __CPROVER_assume(vg_arena_off <= vg_arena_size && n + 1 <= vg_arena_size - vg_arena_off);
+    char *r = vg_arena + vg_arena_off;
+    vg_arena_off += n + 1;
+#else
     char *r = malloc(n + 1);
+#endif
     r[n] = 0;
-    if (s == vg_p1 && vg_k2 < n) r[vg_k2] = s[vg_k2];
+    if (s != NULL && s == vg_p1 && vg_k2 < n) r[vg_k2] = vg_p1[vg_k2];
+    vg_dup_calls++;
+    if (vg_dup_calls == vg_dup_want) { vg_dup_src = s; vg_dup_res = r; }
     return r;
+}
+/* strtol (bound by `#define strtol vopt_strtol` in the units that need a value): the numeric
+ * reading of the registered value is the ghost vg_num */
+long vopt_strtol(const char *s, char **end, int base)
+{
+    vopt_check_registered(s);
+    __CPROVER_assert(end == NULL, "strtol: options.c passes no end pointer");
+    return s == vg_p1 ? vg_num : nondet_long();
 }
 #else
 /* =========================== concrete model (B units) ========================== */
@@ -206,6 +246,15 @@ char *strchr(const char *s, int c)
         if (s[i] == (char) c) return (char *) s + i;
         if (!s[i]) return (char *) 0;
     }
+}
+/* decimal strtol (the B alphabet has no hex/octal spellings other than a leading 0) */
+long vopt_strtol(const char *s, char **end, int base)
+{
+    long v = 0; int neg = 0; size_t i = 0;
+    while (s[i] == ' ') i++;
+    if (s[i] == '-') { neg = 1; i++; } else if (s[i] == '+') i++;
+    while (s[i] >= '0' && s[i] <= '9') { v = v * 10 + (s[i] - '0'); i++; }
+    return neg ? -v : v;
 }
 char *strdup(const char *s)
 {
